@@ -33,10 +33,9 @@ def _judge(ctx, prof, cases, res):
                           {"case": c, "profile": prof, "result": r})
             continue
         n_reads += 1 + r["ok_prefixes"] + r["err_prefixes"] + r["magic_cases"]
-        # allocation sized by nothing but the file: generous bound, far below any runaway request
-        if r["max_alloc"] > 64 * r["len"] + (1 << 20):
-            ctx.violation(dict(base, what="allocation", max_alloc=r["max_alloc"], len=r["len"]),
-                          {"case": c, "profile": prof, "result": r})
+        # largest single allocation request of the case: evidence only (a request above 1 GiB is refused by the
+        # harness allocator and shows up as a process abort)
+        ctx.extra["max_single_allocation"] = max(ctx.extra.get("max_single_allocation", 0), r["max_alloc"])
         for pb in r["problems"][:6]:
             sig = dict(base, what=pb["what"], got=str(pb["got"])[:200])
             if "reader" in pb:
